@@ -40,6 +40,37 @@ def plan(tier, seed):
 
 # ------------------------------------------------------------------------------------------ history generation
 
+_POOLS = {}
+
+
+def _query_pool(mod, label):
+    """Query classes of a command module that can be built from a destination alone (or destination + instance)."""
+    if label not in _POOLS:
+        import inspect
+        from dali import command as _c, address as _A
+        out = []
+        for _n, cls in sorted(vars(mod).items()):
+            if not (inspect.isclass(cls) and issubclass(cls, _c.Command) and not _n.startswith("_")):
+                continue
+            if getattr(cls, "response", None) is None or getattr(cls, "devicetype", 0):
+                continue
+            try:
+                try:
+                    cmd = cls(_A.GearShort(1) if label == "gear" else _A.DeviceShort(1))
+                except TypeError:
+                    if label == "gear":
+                        continue
+                    cmd = cls(_A.DeviceShort(1), _A.InstanceNumber(1))
+                from gateways.sim import is_query as _isq
+                # only frames the harness' own frame classification also takes for a query outside any device-type context
+                if cmd.response is not None and _isq(len(cmd.frame), cmd.frame.as_integer, 0):
+                    out.append(cls)
+            except Exception:
+                continue
+        _POOLS[label] = out
+    return _POOLS[label]
+
+
 def gen_transactions(r, n, with_24=True):
     """List of transactions; each is a list of (gap_before, kind, width, value)."""
     import dali.gear.general as gg
@@ -62,6 +93,8 @@ def gen_transactions(r, n, with_24=True):
         S, L = 0.05, 0.5
         g0 = r.choice([S, L])
         q = r.choice([gg.QueryActualLevel, gg.QueryStatus, gg.QueryControlGearPresent, gg.QueryDeviceType])(a)
+        if r.random() < 0.4:
+            q = r.choice(_query_pool(gg, "gear"))(a)              # every query of the part, whatever its answer class
         t2 = r.choice([gg.SetFadeTime, gg.Reset, gg.SetMaxLevel])(a) if r.random() < 0.7 else gg.AddToGroup(a, r.randrange(16))
         pl = gg.DAPC(a, r.randrange(255)) if r.random() < 0.6 else gg.Off(a)
         qf, tf, pf = q.frame.as_integer, t2.frame.as_integer, pl.frame.as_integer
@@ -120,6 +153,14 @@ def gen_transactions(r, n, with_24=True):
                     tx.append((0.025, "F", 16, ef))
         elif kind == "dev-query":
             c = dg.QueryDeviceStatus(da) if r.random() < 0.5 else dg.QueryInstanceType(da, A.InstanceNumber(r.randrange(32)))
+            if r.random() < 0.6:
+                # every query of part 103, answered with any byte - also bytes the answer class has no name for
+                qc = r.choice(_query_pool(dg, "device"))
+                try:
+                    c = qc(da)
+                except TypeError:
+                    c = qc(da, A.InstanceNumber(r.randrange(32)))
+                v = r.choice([v, r.randrange(5, 256), 0xFF, 0x80])
             tx = [(g0, "F", 24, c.frame.as_integer), (0.012, "B", 8, v)]
         elif kind == "dev-twice":
             c = dg.StartQuiescentMode(da)
@@ -220,7 +261,21 @@ def tridonic_case(seed, part, i, res):
     if early:
         # ENABLE DEVICE TYPE 8 + ACTIVATE (a DT8 command) from another master, reported right after the device was opened
         early_reports = [(0.0006, "F", 16, 0xC108), (0.0012, "F", 16, 0x6FE2)]
-        all_reports[:0] = early_reports
+        shape = (i // 3) % 4
+        late = []
+        if shape == 1:
+            # ... or a query whose answer arrives when the handshake is over
+            early_reports = [(0.0012, "F", 16, 0x61A0)]
+            late = [(0.0135, "B", 8, 0x4D)]
+        elif shape == 2:
+            # ... or a configuration command whose repeat arrives when the handshake is over
+            early_reports = [(0.0006, "F", 16, 0xFE00 | 0x90), (0.0012, "F", 16, 0x612E)]
+            late = [(0.0262, "F", 16, 0x612E)]
+        elif shape == 3:
+            early_reports = [(0.0006, "F", 16, 0xC106), (0.0012, "F", 16, 0x61ED)]
+            late = [(0.0135, "B", 8, 0x06)]
+        all_reports[:0] = early_reports + late
+        res.hit(f"reports_during_handshake_shape_{shape}")
         res.hit("reports_during_handshake")
 
     async def main(sim):
@@ -402,6 +457,8 @@ def tridonic_case(seed, part, i, res):
             if any(drv is not sim.driver2 for (_t, drv, c) in twin_log) or seen2 != twin_sent:
                 res.violation("C20/tridonic/twin-delivery", f"a second Tridonic instance in the same process: its subscriber received {len(seen2)} reports "
                               f"({[hex(x) for x in seen2][:6]}...), its bus carried {len(twin_sent)} frames ({[hex(x) for x in twin_sent][:6]}...)", wit)
+        if getattr(sim, 'hostile_calls', 0):
+            res.hit('hostile_listener_runs')
         if sim.loop.errors:
             res.violation("C20/tridonic/internal-error", f"exception in a callback/task: {sim.loop.errors[0]}", wit)
         if i == 0:
@@ -596,6 +653,8 @@ def serial_case(driver, seed, part, i, res):
                 return
         if after_leave:
             res.violation(f"C20/{driver}/delivered-after-unsubscribe", f"subscriber {after_leave[0][0]} received {after_leave[0][1]} after it had unsubscribed", wit)
+        if getattr(sim, 'hostile_calls', 0):
+            res.hit('hostile_listener_runs')
         if sim.loop.errors:
             res.violation(f"C20/{driver}/internal-error", f"exception in a callback/task: {sim.loop.errors[0]}", wit)
         if i == 0:
